@@ -2,12 +2,16 @@ package main
 
 import (
 	"fmt"
+
+	"github.com/go-logr/logr"
+	ctrllog "sigs.k8s.io/controller-runtime/pkg/log"
+
+	"os"
 	"runtime"
 	"runtime/pprof"
+	"strings"
 	"sync"
 	"sync/atomic"
-	"os"
-	"strings"
 	"time"
 
 	"github.com/awslabs/operatorpkg/status"
@@ -26,9 +30,9 @@ type hist struct {
 	Need bool   `json:"-"` // keep the case only if every injected fault was reached
 }
 
-func rec(p plan) opT      { return opT{Kind: "Rec", Plan: &p} }
-func tick(d int) opT      { return opT{Kind: "Tick", D: d} }
-func op(k string) opT     { return opT{Kind: k} }
+func rec(p plan) opT           { return opT{Kind: "Rec", Plan: &p} }
+func tick(d int) opT           { return opT{Kind: "Tick", D: d} }
+func op(k string) opT          { return opT{Kind: k} }
 func opb(k string, b bool) opT { return opT{Kind: k, B: b} }
 
 var okPlan = plan{}
@@ -42,6 +46,7 @@ type jcase struct {
 }
 
 type result struct {
+	reach  []map[string]bool // per Rec op: the fault sites the reconcile reached
 	skip   bool
 	term   string
 	jc     jcase
@@ -84,6 +89,39 @@ func consumed(inj plan, effs []string, w *world) bool {
 	return true
 }
 
+var effSite = map[string]string{"EFin": "fin", "ECreate": "create", "EDelLaunch": "del_launch", "ENodePatchReg": "npatch_reg",
+	"EPoolReg": "pool_reg", "ENodePatchInit": "npatch_init", "EPoolLive": "pool_live", "EDelLive": "del_live", "EPatch": "patch",
+	"EStatus": "status", "EPDel": "pdel", "ETerm": "term", "EUnfin": "unfin"}
+
+func reached(effs []string, w *world) map[string]bool {
+	m := map[string]bool{}
+	n := map[string]int{}
+	for _, e := range effs {
+		site := effSite[strings.SplitN(e, " ", 2)[0]]
+		if site == "pool_live" || site == "del_live" {
+			n[site]++
+			site = fmt.Sprintf("%s%d", site, n[site])
+		}
+		m[site] = true
+	}
+	for k := range w.listHit {
+		m[k] = true
+	}
+	if w.hookHit {
+		m["hook"] = true
+	}
+	return m
+}
+
+func (p plan) sitesReached(m map[string]bool) bool {
+	for _, f := range p.faults() {
+		if !m[strings.SplitN(f, "=", 2)[0]] {
+			return false
+		}
+	}
+	return true
+}
+
 func runHist(sl *slot, h hist, ks consts) (out result) {
 	w := newWorld(sl, h.K, ks)
 	count := func(s string) { out.counts = append(out.counts, s) }
@@ -99,6 +137,7 @@ func runHist(sl *slot, h hist, ks consts) (out result) {
 		gop, effs, res := w.apply(o)
 		if o.Kind == "Rec" {
 			recs++
+			out.reach = append(out.reach, reached(effs, w))
 			if !o.Plan.isOK() {
 				if h.Need && !consumed(*o.Plan, effs, w) {
 					return result{skip: true}
@@ -428,6 +467,7 @@ func measureTTL() int64 {
 
 func main() {
 	c := kit.Parse("C14", os.Args[1:])
+	ctrllog.SetLogger(logr.Discard())
 	if pf := os.Getenv("VERIF_C14_PROF"); pf != "" {
 		f, _ := os.Create(pf)
 		_ = pprof.StartCPUProfile(f)
@@ -453,10 +493,15 @@ func main() {
 	if c.Thorough() {
 		ncfg = len(cfgs())
 	}
+	probe := newSlot()
 	for _, k := range cfgs()[:ncfg] {
 		for _, s := range faultScripts(k, ks, c.Thorough()) {
+			reach := runHist(probe, hist{K: k, Ops: s}, ks).reach
 			for i := 0; i < countRecs(s); i++ {
 				for _, f := range singleFaults() {
+					if !f.sitesReached(reach[i]) {
+						continue
+					}
 					for _, stale := range []bool{false, true} {
 						if !c.Thorough() && stale && (f.Fin|f.DelLaunch|f.NPatchReg|f.PoolReg|f.NPatchInit|f.PoolLive1|f.DelLive1|f.PoolLive2|f.DelLive2|f.Patch|f.Status|f.Term|f.Unfin) == wNotFound {
 							continue
